@@ -118,35 +118,49 @@ def q_poscar(c, A, ctx):
     return c.to_poscar_string()
 
 
-def _saveload(c, ctx, name, with_text=True):
+def _saveload(c, A, ctx, name, with_text=True):
     """save() to a file (the same path every time for a given handle, as a
     user overwriting their file would) and load() it back. For .res / POSCAR
     the file's text is part of the answer too; a CIF written from a loaded
     crystal legitimately carries extra items, so only what it parses to counts."""
+    import os
     from pathlib import Path
 
-    p = "%s/%s" % (ctx["dir"], name)
-    c.save(p)
-    loaded = Crystal.load(p)
+    if A.get("relative"):
+        # the caller works inside the handle's directory and uses relative
+        # file names (the working directory is part of the environment)
+        back = os.getcwd()
+        os.chdir(ctx["dir"])
+        try:
+            c.save(name)
+            loaded = Crystal.load(name)
+            text = Path(name).read_text() if with_text else None
+        finally:
+            os.chdir(back)
+    else:
+        p = "%s/%s" % (ctx["dir"], name)
+        c.save(p)
+        loaded = Crystal.load(p)
+        text = Path(p).read_text() if with_text else None
     if not with_text:
         return loaded
-    return {"loaded": loaded, "text": Path(p).read_text()}
+    return {"loaded": loaded, "text": text}
 
 
 def q_sl_cif(c, A, ctx):
-    return _saveload(c, ctx, "x.cif", with_text=False)
+    return _saveload(c, A, ctx, "x.cif", with_text=False)
 
 
 def q_sl_res(c, A, ctx):
-    return _saveload(c, ctx, "x.res")
+    return _saveload(c, A, ctx, "x.res")
 
 
 def q_sl_poscar(c, A, ctx):
-    return _saveload(c, ctx, "POSCAR")
+    return _saveload(c, A, ctx, "POSCAR")
 
 
 def q_sl_contcar(c, A, ctx):
-    return _saveload(c, ctx, "sub/CONTCAR")
+    return _saveload(c, A, ctx, "sub/CONTCAR")
 
 
 def q_shape(c, A, ctx):
